@@ -184,6 +184,11 @@ func c17Sketches(c *Ctx) {
 			k.Input("k", kk)
 			k.Input("seqs", func() string { return seqsString(seqs) })
 			want := refSketch(h, size, kk, seqs)
+			var ar *arenaT
+			if k.Idx%2 == 1 { // the sequences as adjacent windows of one buffer
+				ar = newArena(r, seqs...)
+				seqs = ar.parts
+			}
 			orig := cloneSeqs(seqs)
 			got := append([]uint64{}, mash.Sequences(size, kk, seqs...).View()...)
 			if !sameU64(got, want) {
@@ -195,6 +200,9 @@ func c17Sketches(c *Ctx) {
 					k.Failf("input-modified", "Sequences modified input sequence %d", j)
 					return
 				}
+			}
+			if ar != nil && arenaFail(k, ar, "mash.Sequences") {
+				return
 			}
 			k.Count("sketches_checked", 1)
 			variant := func(name string, vs [][]byte, build func() []uint64) bool {
